@@ -109,7 +109,8 @@ def gate_src(g):
             args.append(f"{k}={float(v)!r}" if isinstance(v, (float, np.floating)) else f"{k}={v!r}")
     s = f"gates.{name}({', '.join(args)})"
     if g.is_controlled_by:
-        s = f"gates.{name}({', '.join(str(q) for q in g.target_qubits)}).controlled_by({', '.join(str(q) for q in g.control_qubits)})"
+        # init_args of a controlled_by gate are those of the base gate (targets [+ class controls])
+        s = f"{s}.controlled_by({', '.join(str(q) for q in g.control_qubits if q not in g.init_args)})"
     return s
 
 
@@ -133,7 +134,9 @@ def regen(gs):
         if g.__class__.__name__ == "M":
             out.append(g.__class__(*g.target_qubits, collapse=g.collapse))
         elif g.is_controlled_by:
-            out.append(g.__class__(*g.target_qubits).controlled_by(*g.control_qubits))
+            kw = {k: v for k, v in g.init_kwargs.items() if k in ("theta", "phi", "lam", "phi0", "phi1", "delta")}
+            extra = [q for q in g.control_qubits if q not in g.init_args]
+            out.append(g.__class__(*g.init_args, **kw).controlled_by(*extra))
         else:
             out.append(g.__class__(*g.init_args, **g.init_kwargs))
     return out
@@ -1199,6 +1202,94 @@ def statevector_correspondence(ctx):
                      expected=str(model.tolist()), observed=str(real.tolist()), broken=["C12_corr_pauliop"])
     ctx.ob("C12_corr_pauliop", bad == 0, "correspondence", f"{bad} disagreements of {len(lines)}" if bad else f"{len(lines)} rows")
 
+def angle_aware_classes():
+    """gate classes whose `clifford` flag depends on the parameter (found by probing the real
+    classes: the flag differs between two parameter values), with their number of qubits."""
+    infos = {k: v for k, v in qgates.gate_infos().items() if v.generic and v.np == 1}
+    out = []
+    for name, info in sorted(infos.items()):
+        flags = set()
+        for th in (0.0, math.pi / 2, math.pi, 2 * math.pi, 4 * math.pi, 0.3):
+            try:
+                flags.add(bool(info.make(list(range(info.nq)), [th]).clifford))
+            except Exception:
+                pass
+        if len(flags) > 1 or name in ROT1 + ROT2 + ["GPI2"]:
+            out.append((name, info))
+    return out
+
+
+def controlled_rotation_search(ctx):
+    """angle-aware flags under `controlled_by`: for 1, 2, 3 extra controls and every angle
+    k*pi/2, |k| <= 16 (all multiples of 2*pi and 4*pi included) (i) the flag agrees with the
+    numeric Clifford test of the full controlled operator, (ii) whenever the flag is True the
+    Clifford backend either raises or returns the state-vector result on an input on which the
+    controls matter (H on every qubit first)."""
+    from qibo import gates
+
+    bad0 = len(ctx.failures)
+    for name, info in angle_aware_classes():
+        for nc in (1, 2, 3):
+            n = info.nq + nc
+            qs = list(range(nc, n))
+            # controls below, above and around the gate's own qubits
+            layouts = [(qs, list(range(nc)))]
+            layouts.append((list(range(info.nq)), list(range(info.nq, n))))
+            if info.nq == 2:
+                layouts.append(([n - 1, 0], list(range(1, n - 1))))
+            for k in range(-16, 17):
+                for th in sorted({k * math.pi / 2, k * (math.pi / 2), float(np.float64(k) * np.float64(math.pi / 2))}):
+                    for own, ctrls in layouts:
+                        try:
+                            base = info.make(own, [th])
+                            g = base.controlled_by(*ctrls)
+                            flag = bool(g.clifford)
+                        except Exception:
+                            ctx.stat("ctrl_rot_unconstructible")
+                            continue
+                        cname = g.__class__.__name__
+                        src = f"gates.{name}({', '.join(map(str, own))}, {th!r}).controlled_by({', '.join(map(str, ctrls))})"
+                        descr = f"{name}({own}, {th!r}).controlled_by{tuple(ctrls)}"
+                        U = qgates.gate_full_matrix(g, n)
+                        truth = is_clifford_matrix(U)
+                        ctx.case(("ctrl-rot-flag", name, nc, k, tuple(own)))
+                        ctx.stat("ctrl_rot_cases")
+                        generic = g.is_controlled_by  # else: fell back to a class of its own (CRX, ...), swept elsewhere
+                        key_cls = f"{name}.controlled_by" if generic else cname
+                        if flag and not truth:
+                            okey = f"flag-overreport:{key_cls}"
+                            if not generic and cname in ROT2:
+                                quot = th / (math.pi / 2)
+                                okey = f"flag-overreport:{cname}" if round(quot) % 2 == 1 else f"flag-overreport-angle:{cname}"
+                            ctx.fail(okey, f"{descr}.clifford is True but the controlled operator does not map Paulis to Paulis",
+                                     HEAD + f"g = {src}\nassert not g.clifford, 'flag True for a non-Clifford operator'\n",
+                                     expected=False, observed=True, broken=["C12_search_ctrl_rot"])
+                        if flag:
+                            # acceptance must not mis-simulate: controls in superposition, target off-axis
+                            pre = [gates.H(q) for q in range(n)] + [gates.S(own[-1])]
+                            gs = pre + [g]
+                            be = cliff_backend()
+                            try:
+                                r = be.execute_circuit(build(n, regen(gs)))
+                            except Exception as e:
+                                ctx.stat(f"ctrl_rot_refused_{type(e).__name__}")
+                                continue
+                            psi = sv_state(n, gs)
+                            try:
+                                rho = np.asarray(r.state())
+                                ok = rho.shape == (2**n, 2**n) and np.allclose(rho, np.outer(psi, psi.conj()), atol=TOL)
+                            except Exception:
+                                ok = False
+                            ctx.stat("ctrl_rot_accepted")
+                            if not ok:
+                                skey = f"state:{key_cls}"
+                                ctx.fail(skey, f"accepted circuit {[gate_src(x) for x in pre]} + {descr}: stabiliser state differs from the state-vector result (controls ignored?)",
+                                         HEAD + f"c = Circuit({n})\nfor g in [{', '.join(gate_src(x) for x in pre)}, {src}]:\n    c.add(g)\n"
+                                         "try:\n    r = CliffordBackend('numpy').execute_circuit(c)\nexcept Exception:\n    raise SystemExit(0)\n"
+                                         "sv = NumpyBackend().execute_circuit(c).state()\nassert np.allclose(r.state(), np.outer(sv, sv.conj()), atol=1e-9), 'accepted but wrong state'\n",
+                                         expected="refusal or |psi><psi|", observed="different state", broken=["C12_search_ctrl_rot"])
+    ctx.ob("C12_search_ctrl_rot", len(ctx.failures) == bad0, "search", "")
+
 
 def run(ctx):
     MODULES, THEOREMS = registry(PROP)
@@ -1209,6 +1300,7 @@ def run(ctx):
     gate_correspondence(ctx)
     measure_correspondence(ctx)
     flag_search(ctx)
+    controlled_rotation_search(ctx)
     state_search(ctx)
     sampling_search(ctx)
     collapse_search(ctx)
@@ -1216,7 +1308,7 @@ def run(ctx):
     stim_search(ctx)
     to_circuit_search(ctx)
     ctx.notes.append("tableau correspondence: every operation of _clifford_operations.py through CliffordBackend.execute_circuit(initial_state=T) on tableaux enumerating all local Pauli patterns, every placement n<=3 (sampled n=4,5), angles k*pi/2 (k*pi) |k|<=40, multi-step histories compared after every gate, measurement via sample_shots with the random outcomes fed to the model as coins, gate matrices vs gate.matrix(), state vector of the simulator model (Gate.mgate / runSV over Z[i]) vs the real state-vector backend with every model stabiliser row (operator pauliOp evaluated in Lean, and as numpy matrix) fixing it, pauliOp vs symplectic_matrix_to_generators; "
-                     "search: flag vs numeric Clifford test for every gate class (controlled_by versions, parameter sweeps, parameter updates), accepted circuits vs state vector (n<=5, depth<=30, initial_state, random_clifford), Born support of samples / frequencies / registers, exhaustive 2-qubit circuits, mid-circuit collapse histories, refusal of every non-Clifford class, stim engine, to_circuit AG04/BM20, copies and string forms")
+                     "search: flag vs numeric Clifford test for every gate class (controlled_by versions, parameter sweeps, parameter updates; angle-aware classes with 1-3 controlled_by controls at k*pi/2 |k|<=16: flag vs full controlled operator and accepted => state-vector result), accepted circuits vs state vector (n<=5, depth<=30, initial_state, random_clifford), Born support of samples / frequencies / registers, exhaustive 2-qubit circuits, mid-circuit collapse histories, refusal of every non-Clifford class, stim engine, to_circuit AG04/BM20, copies and string forms")
     ctx.assumptions.append("theorems: local conjugation U P = +-P' U for every operation and every local Pauli (complete: finite domain), row locality, symplectic invariance / tableau invariant for all n and all circuits, rowsum phase arithmetic; "
                            "assembled for every n: U_g P(w) = P(g.act w) U_g as operators on state vectors of the simulator model (T12_conjugation_all_qubits), lifted to circuits (rows of the tableau = conjugates of the initial rows; every stabiliser row fixes the state vector: T12_stabilizer_state); "
                            "measurement: rowsum = operator product, the determined outcome has Born probability 1 (T12_determined_outcome_born), in the random branch both outcomes have non-zero probability (T12_random_outcome_both_possible); the tableau written by _random_outcome describes the collapsed state (invariant, non-degeneracy, stabilisers fix the projected state: T12_random_outcome_keeps_invariants), hence for every circuit, every list of measured qubits and all coins the returned outcome string has non-zero Born probability (T12_measurement_sequence_born); "
